@@ -822,6 +822,30 @@ def r1_7(ctx):
     ctx.floor("R1.7", n, 2, "EXISTS templates")
 
 
+def r1_10(ctx):
+    """The numbers in a SEARCH response are generated by the server from the mailbox as it is when the search runs.  An
+    EXISTS for this session may still be queued (check_new_msgs_and_flags queues it behind whatever else is pending, to keep
+    the order): until it is sent the session's view is shorter than the list the search walks.  So between the admission of the
+    command and the call of Mailbox.search() every path sends the session's queue (send_pending_notifications) - or leaves
+    with NO."""
+    p = ctx.p
+    fi = p.func("client.Authenticated.do_search")
+    ctx.analysed(fi)
+    g = ctx.cfg(fi)
+    adm = [w for w, c in admission_items(fi)]
+    ctx.require(adm, "do_search: admission (ready_and_okay) not found")
+    enter = [n.id for n in g.nodes if n.kind == "with_enter" and n.stmt is adm[0]]
+    search = [n.id for n in g.nodes if n.ast is not None and n.kind == "stmt" and any(call_name(c) == "search" and norm(call_recv(c)) == "self.mbox" for c in calls_in(n.ast))]
+    flush = {n.id for n in g.nodes if n.ast is not None and n.kind == "stmt" and any(call_name(c) == "send_pending_notifications" for c in calls_in(n.ast))}
+    ctx.require(enter and search, "do_search: admission entry / Mailbox.search() call not found in the CFG")
+    w = flow.escapes_without(g, enter[0], lambda n: n in flush, search)
+    ctx.paths_explored += 1
+    if w:
+        ctx.bad("R1.10", fi.module, fi.qual, "send_pending_notifications() between admission and self.mbox.search(...)", "SEARCH can run with notifications still queued for the session: an EXISTS queued behind another notification has not reached the client, and the answer names a sequence number above the message count the session was told", g.nodes[search[0]].line, flow.fmt_path(g, w))
+    else:
+        ctx.ok("R1.10", where(fi), "the session's queue is sent on every path from the admission to Mailbox.search()")
+
+
 def run(ctx):
     ctx.do(r1_1)
     ctx.do(r1_2)
@@ -834,6 +858,7 @@ def run(ctx):
     ctx.do(r1_7)
     ctx.do(r1_8)
     ctx.do(r1_9)
+    ctx.do(r1_10)
     from . import c02
     ctx.do(c02.r2_6)
     # shared necessary conditions decided by sibling modules (reported under this property too)
